@@ -118,7 +118,14 @@ def h_no_side_effect(ctx, version):
     _ = a2 <= b2
     _ = a2 == b2
     _ = a2.union(b2)
+    _ = a2.intersection(b2)
+    _ = b2.intersection(a2)
     again = a2 <= b2
+    # the operands are the kinds they were: each still equals (and is ordered like) an untouched copy
+    ctx.require(a2 == _clone(ctx, a), "operand-changed", "a comparison / union / intersection changed its receiver (it no longer equals an identically built kind)")
+    ctx.require(b2 == _clone(ctx, b), "operand-changed", "a comparison / union / intersection changed its argument (it no longer equals an identically built kind)")
+    ctx.require(_clone(ctx, a) <= a2, "operand-shrank", "after a comparison / union / intersection the receiver lost features")
+    ctx.require(_clone(ctx, b) <= b2, "operand-shrank", "after a comparison / union / intersection the argument lost features")
     ctx.require(Iff(first, again), "le-stable", "a<=b changes its answer after earlier comparisons on the same objects")
     ctx.require(Iff(_clone(ctx, a) == _clone(ctx, b), a2 == b2), "eq-stable", "a==b changes its answer after earlier comparisons")
     ctx.witness("stable")
@@ -212,6 +219,10 @@ def h_implicit_version(ctx, sub):
     ea, eb = _inject(a._features.copy(), v), _inject(b._features.copy(), vb)
     ctx.require(Iff(_clone(ctx, a) <= _clone(ctx, b), ea <= eb), "implicit-le", "a<=b with implicit versions differs from the explicit-version comparison")
     ctx.require(_clone(ctx, a) <= _clone(ctx, a), "implicit-reflexive", "a <= a false for an implicit-version kind")
+    # a kind with a derived version and the kind that declares that version are equal, so they hash alike
+    ctx.require(_clone(ctx, a) == ea, "implicit-eq-explicit", "a kind with an implicit version differs from the same features with that version declared")
+    ctx.check(hash(_clone(ctx, a)) == hash(ea), "hash-implicit", f"implicit-version kind == explicit version-{v} kind but the hashes differ")
+    ctx.check(hash(_clone(ctx, a)) == hash(_clone(ctx, a)), "hash-implicit-self", "two equal implicit-version kinds hash differently")
     ctx.witness(f"implicit-v{v}-v{vb}")
 
 
